@@ -59,7 +59,7 @@ def run(ctx, extra_cases=()):
     rng = random.Random(ctx.seed)
 
     exprs, infos = [D.case_ascii_classes()], [dict(kind="ascii-classes")]
-    n = ctx.n(1500, 60000)
+    n = ctx.n(1500, 24000)
     for i in range(n):
         k = i % 10
         if k < 6:
@@ -78,14 +78,21 @@ def run(ctx, extra_cases=()):
     # The model side. When the model cannot be evaluated (e.g. the translator no longer recognises
     # the source, so the c32_* constants are withheld) the proof obligation is already recorded as
     # broken by ctx.prove(); the implementation-side monitor below still runs on every case.
-    try:
-        res = ctx.run_cases("dnsid", D.HEADER, exprs)
-        bad = [i for i, z in enumerate(res) if z != 0]
-    except core.CheckError as e:
-        if not ctx.broken_obligations:
+    res, bad = [], []
+    for attempt in range(3):
+        try:
+            res = ctx.run_cases("dnsid", D.HEADER, exprs)
+            bad = [i for i, z in enumerate(res) if z != 0]
+            break
+        except core.CheckError as e:
+            if ctx.broken_obligations:
+                ctx.notes.append("model not evaluated (development does not build): %s" % str(e)[:300])
+                break
+            if "inconsistent assumptions" in str(e) and attempt < 2:
+                # another check rebuilt the shared .vo files at this moment: re-make and retry
+                core.coq_make(["theories/Model/DnsId.vo"])
+                continue
             raise
-        res, bad = [], []
-        ctx.notes.append("model not evaluated (development does not build): %s" % str(e)[:300])
     ctx.disagreements += len(bad)
     ctx.disagreements_checked = len(bad)
 
@@ -149,7 +156,7 @@ def run(ctx, extra_cases=()):
 
     # ---- monitor-only stream: the real `random` module, a set-based collision oracle ---------
     mfails, mcount = [], 0
-    for j in range(ctx.n(4000, 150000)):
+    for j in range(ctx.n(4000, 80000)):
         name, kind = D.gen_name(rng)
         force = rng.random() < 0.1
         low, al = D.analyse(name)
